@@ -754,6 +754,15 @@ def rt_stress(req):
     rng = random.Random(seed)
     objs = scenarios.make()
     names = ['wrapped_fn', 'as_forged', 'method_pok', 'decorated_fn', 'pok_fn', 'declared_emulated', 'plain_wrapper']
+    # a forwarding function whose body nests far deeper than the interpreter's stack allows the visitor to follow: what it
+    # answers depends on process-wide interpreter settings only (it must not depend on what other threads are doing)
+    from . import progs
+    deep_mod, deep_fname = progs.load_module(
+        'def tgt(a, b=2, *, c=3): return a\ndef deep(first, *args, **kwargs):\n    return tgt(*args, **kwargs) and (%s)\n'
+        % ' + '.join(['first'] * 700))
+    objs['deep_nested'] = deep_mod.deep
+    names.append('deep_nested')
+    recursion_limit = sys.getrecursionlimit()
     with warnings.catch_warnings():
         warnings.simplefilter('ignore')
         alone = {n: (str(sigtools.signature(objs[n])), str(inspect.signature(objs[n]))) for n in names}
@@ -796,6 +805,11 @@ def rt_stress(req):
                         '(e.g. %s instead of %s)' % (len(window), window[0][2], alone['wrapped_fn'][window[0][1]]))
     if specifiers.as_forged.currently_computing:
         problems.append('guard-not-empty after stress')
+    if sys.getrecursionlimit() != recursion_limit:
+        problems.append('concurrent-answer: after the threads finished the interpreter\'s recursion limit is %d, it was %d: every later '
+                        'retrieval of a deeply nested function answers differently' % (sys.getrecursionlimit(), recursion_limit))
+        sys.setrecursionlimit(recursion_limit)
+    progs.unload(deep_fname)
     return ('ok', tuple(problems))
 
 
